@@ -98,6 +98,7 @@ class FnDir:
         self.sig = ""
         self.loops = {}
         self.closures = {}
+        self.hoists = {}
         self.hints = []  # (where, text_anchor, occ, loop, hint_text)
         self.panic = {}
         self.manual = []
@@ -147,6 +148,11 @@ def parse_fn_directive(header, body, default_file, unit_props, tline):
             if not m:
                 raise GenError("bad @closure header: %s" % rest)
             d.closures[int(m.group(1))] = {"params": m.group(2), "ret": m.group(3).strip(), "text": text}
+        elif kind == "hoist":
+            m = re.match(r"(\d+)\s+fn\s+(\w+)\s*(<[^(]*>)?\s*\((.*)\)\s*->\s*(.+)$", rest)
+            if not m:
+                raise GenError("bad @hoist header: %s" % rest)
+            d.hoists[int(m.group(1))] = {"name": m.group(2), "generics": m.group(3) or "", "params": m.group(4), "ret": m.group(5).strip(), "text": text}
         elif kind in ("before", "after"):
             m = re.match(r"(?:#(\d+)\s+)?`(.*)`$", rest)
             if not m:
@@ -297,6 +303,7 @@ class Unit:
                     "no_ptr_rule": bool(o.get("noptr")),
                     "iter_inline": parse_subst(o.get("iterinline")),
                     "macro_rules": o.get("macro"), "macro_arg": o.get("macroarg"),
+                    "hoist": {str(k): {"name": v["name"], "generics": v["generics"], "params": v["params"], "ret": v["ret"]} for k, v in d.hoists.items()},
                     "ret_type": o.get("rettype"),
                     "wrap": o["wrap"].split(",") if o.get("wrap") else [],
                     "manual": d.manual,
@@ -443,6 +450,9 @@ class Unit:
             elif tag == "CLOSURE":
                 n = int(arg)
                 out.extend(contract_lines(d.closures[n]["text"], "closure%d" % n))
+            elif tag == "HOIST":
+                n = int(arg)
+                out.extend(contract_lines(d.hoists[n]["text"], "hoist%d" % n))
             elif tag == "ANCHOR":
                 h = hints_by_id[arg]
                 out.extend(hint_lines(h["hint"], "%s %s" % (h["where"], h["text"] or h["loop"] or "")))
